@@ -4,7 +4,7 @@ Every callable the harness hands to tinyflux comes from here, by index; the mode
 under the environment twinE/twinC whose functions are the Gallina twins.  check_twins()
 cross-checks the two tables on a value universe through coqc on every run."""
 import re
-from datetime import timedelta
+from datetime import timedelta, timezone
 
 
 def _boom(*a):
@@ -76,6 +76,7 @@ C_TIME = [
     _boom,
     lambda t: t,
     _ct4,
+    lambda t: (t + timedelta(hours=1)).astimezone(timezone(timedelta(hours=5))),
 ]
 
 
